@@ -76,6 +76,8 @@ func genHistory(t *rapid.T, rates []gen.Rate, nsrc int) []segment {
 	}
 	gaps := append([]time.Duration{}, gen.Gaps...)
 	gaps = append(gaps, 10*maxP+2*time.Second, 11*maxP, maxP, maxP/2)
+	// around half of the entry lifetime (10*period+1s): where a lazily re-armed ttl would bite
+	gaps = append(gaps, 5*maxP-time.Second, 5*maxP-500*time.Millisecond, 5*maxP-100*time.Millisecond, 5*maxP+400*time.Millisecond, 4*maxP+500*time.Millisecond, 100*time.Microsecond, 30*time.Microsecond)
 	for _, r := range rates {
 		gaps = append(gaps, r.Tau(), r.Tau()-1, time.Duration(r.Burst)*r.Tau())
 	}
@@ -101,6 +103,10 @@ func genHistory(t *rapid.T, rates []gen.Rate, nsrc int) []segment {
 		g := rapid.SampledFrom(gaps).Draw(t, "gap")
 		if g < 0 {
 			g = 0
+		}
+		if rapid.IntRange(0, 5).Draw(t, "drain") == 0 { // drain: full-burst requests back to back, then the drawn gap once
+			segs = append(segs, segment{src: rapid.IntRange(0, nsrc-1).Draw(t, "dsrc"), k: rapid.IntRange(2, 12).Draw(t, "dk"), gap: 0, amt: minBurst})
+			k = 1
 		}
 		segs = append(segs, segment{src: rapid.IntRange(0, nsrc-1).Draw(t, "src"), k: k, gap: g, amt: amt})
 	}
@@ -267,7 +273,7 @@ func TestC03_ConcurrentFirstContact(t *testing.T) {
 	rapid.Check(t, func(t *rapid.T) {
 		rates := gen.Rates(t, false, 5)
 		rs, _ := gen.RateSet(rates)
-		G := rapid.IntRange(2, 4).Draw(t, "goroutines")
+		G := rapid.IntRange(2, 8).Draw(t, "goroutines")
 		amt := int64(rapid.IntRange(1, 3).Draw(t, "amt"))
 		minBurst := rates[0].Burst
 		for _, r := range rates {
@@ -275,7 +281,7 @@ func TestC03_ConcurrentFirstContact(t *testing.T) {
 				minBurst = r.Burst
 			}
 		}
-		if rapid.Bool().Draw(t, "fullBurst") {
+		if rapid.IntRange(0, 3).Draw(t, "fullBurst") > 0 {
 			amt = minBurst
 		}
 		if amt > minBurst {
@@ -283,49 +289,120 @@ func TestC03_ConcurrentFirstContact(t *testing.T) {
 		}
 		clock.Freeze(epoch)
 		defer clock.Unfreeze()
-		var mu sync.Mutex
-		arrived := 0
-		cond := make(chan struct{})
-		barrier := ratelimit.RateExtractorFunc(func(r *http.Request) (*ratelimit.RateSet, error) {
-			mu.Lock()
-			arrived++
-			if arrived == G {
-				close(cond)
-			}
-			mu.Unlock()
-			select {
-			case <-cond:
-			case <-time.After(15 * time.Millisecond):
-			}
-			return rs, nil
-		})
-		var servedMu sync.Mutex
 		served := int64(0)
-		next := http.HandlerFunc(func(w http.ResponseWriter, r *http.Request) {
-			servedMu.Lock()
-			served += amt
-			servedMu.Unlock()
-		})
-		tl, err := ratelimit.New(next, gen.HeaderExtractor, rs, ratelimit.ExtractRates(barrier))
-		if err != nil {
-			t.Fatal(err)
+		for storm := 0; storm < 8 && served <= minBurst+1; storm++ {
+			served = firstContactStorm(t, rs, G, amt)
 		}
-		var wg sync.WaitGroup
-		for g := 0; g < G; g++ {
-			wg.Add(1)
-			go func() {
-				defer wg.Done()
-				req := httptest.NewRequest("GET", "http://x/", nil)
-				req.Header.Set("X-Src", "fresh")
-				req.Header.Set("X-Amt", strconv.FormatInt(amt, 10))
-				tl.ServeHTTP(httptest.NewRecorder(), req)
-			}()
-		}
-		wg.Wait()
 		if served > minBurst+1 {
 			t.Fatalf("%d concurrent first requests of amount %d from one source at one instant: %d admitted, bound burst+1 = %d (rates %v)", G, amt, served, minBurst+1, rates)
 		}
 		vstat.Case(fmt.Sprintf("conc|%v|%d|%d", rates, G, amt), int64(G)*amt > minBurst, []string{"concurrent-first-contact"}, map[string]any{"rates": fmt.Sprint(rates), "goroutines": G, "amount": amt, "admitted": served})
+	})
+}
+
+
+// firstContactStorm fires G simultaneous first requests of one fresh source at a fresh limiter.
+func firstContactStorm(t *rapid.T, rs *ratelimit.RateSet, G int, amt int64) int64 {
+	var mu sync.Mutex
+	arrived := 0
+	cond := make(chan struct{})
+	barrier := ratelimit.RateExtractorFunc(func(r *http.Request) (*ratelimit.RateSet, error) {
+		mu.Lock()
+		arrived++
+		if arrived == G {
+			close(cond)
+		}
+		mu.Unlock()
+		select {
+		case <-cond:
+		case <-time.After(500 * time.Microsecond):
+		}
+		return rs, nil
+	})
+	var servedMu sync.Mutex
+	served := int64(0)
+	next := http.HandlerFunc(func(w http.ResponseWriter, r *http.Request) {
+		servedMu.Lock()
+		served += amt
+		servedMu.Unlock()
+	})
+	tl, err := ratelimit.New(next, gen.HeaderExtractor, rs, ratelimit.ExtractRates(barrier))
+	if err != nil {
+		t.Fatalf("%v", err)
+	}
+	var wg sync.WaitGroup
+	start := make(chan struct{})
+	for g := 0; g < G; g++ {
+		wg.Add(1)
+		go func() {
+			defer wg.Done()
+			req := httptest.NewRequest("GET", "http://x/", nil)
+			req.Header.Set("X-Src", "fresh")
+			req.Header.Set("X-Amt", strconv.FormatInt(amt, 10))
+			<-start
+			tl.ServeHTTP(httptest.NewRecorder(), req)
+		}()
+	}
+	close(start)
+	wg.Wait()
+	return served
+}
+
+
+// TestC03_EntryLifetimeEdges aims at the instants where the limiter's memory of a
+// source can go wrong: requests (single tokens or whole bursts) placed just before and
+// after half of the entry lifetime and just before and after its end, for bursts close to
+// the largest one the statement guarantees (5 x average), with the clock phase late or
+// early in a wall-clock second (expiry is kept in whole seconds).
+func TestC03_EntryLifetimeEdges(t *testing.T) {
+	rapid.Check(t, func(t *rapid.T) {
+		period := rapid.SampledFrom([]time.Duration{time.Second, 2 * time.Second, 10 * time.Second}).Draw(t, "period")
+		avg := int64(rapid.IntRange(1, 200).Draw(t, "average"))
+		burst := avg*5 - int64(rapid.IntRange(0, int(avg/2)).Draw(t, "belowMax"))
+		if burst < 1 {
+			burst = 1
+		}
+		rates := []gen.Rate{{Period: period, Average: avg, Burst: burst}}
+		rs, _ := gen.RateSet(rates)
+		phase := time.Duration(rapid.SampledFrom([]int64{1, 500, 900, 990, 999}).Draw(t, "phaseMs")) * time.Millisecond
+		clock.Freeze(epoch.Add(phase))
+		defer clock.Unfreeze()
+		tl, err := ratelimit.New(http.HandlerFunc(func(w http.ResponseWriter, r *http.Request) {}), gen.HeaderExtractor, rs)
+		if err != nil {
+			t.Fatalf("%v", err)
+		}
+		ttl := 10*period + time.Second
+		marks := []time.Duration{ttl / 2, ttl/2 - phase, ttl - phase, ttl - time.Second, ttl, ttl/2 - time.Second, period, 5 * period}
+		deltas := []time.Duration{-500 * time.Millisecond, -100 * time.Millisecond, -time.Millisecond, time.Millisecond, 3 * time.Millisecond, 100 * time.Millisecond, 503 * time.Millisecond}
+		var events []adm
+		var now time.Duration
+		var log []string
+		n := rapid.IntRange(2, 10).Draw(t, "nevents")
+		for i := 0; i < n; i++ {
+			amt := burst
+			if rapid.IntRange(0, 3).Draw(t, "single") == 0 {
+				amt = 1
+			}
+			req := httptest.NewRequest("GET", "http://x/", nil)
+			req.Header.Set("X-Src", "a")
+			req.Header.Set("X-Amt", strconv.FormatInt(amt, 10))
+			rec := httptest.NewRecorder()
+			tl.ServeHTTP(rec, req)
+			if rec.Code == 200 {
+				events = append(events, adm{now, amt})
+			}
+			log = append(log, fmt.Sprintf("+%v x%d -> %d", now, amt, rec.Code))
+			d := rapid.SampledFrom(marks).Draw(t, "mark") + rapid.SampledFrom(deltas).Draw(t, "delta")
+			if d <= 0 {
+				d = time.Millisecond
+			}
+			clock.Advance(d)
+			now += d
+		}
+		if ok, msg := checkBound(events, rates); !ok {
+			t.Fatalf("%s\nrate %v, clock phase %v, entry lifetime %v\n%s", msg, rates[0], phase, ttl, strings.Join(log, "\n"))
+		}
+		vstat.Case(fmt.Sprintf("edge|%v|%v|%v", rates, phase, log), len(events) >= 2 && burst*10 > avg*45, []string{"entry-lifetime-edges"}, map[string]any{"rate": rates[0].String(), "phase": phase.String(), "events": log})
 	})
 }
 
